@@ -50,6 +50,10 @@ def oracle(hist, records):
         if rec["step"][0] != "build":
             continue
         obs = rec["obs"]
+        if obs.get("timeout"):
+            bad.append(("build", f"build {bi}: the build did not terminate within {pa.BUILD_TIMEOUT:.0f} s; bodies started so far: "
+                                 f"{[e[1] for e in obs['log'] if e[0] == 'S'][:12]}", None))
+            continue
         if obs.get("raised") or obs.get("died") or obs.get("exit") not in (0, 1):
             bad.append(("build", f"build {bi}: build() raised / unexpected exit {obs.get('exit')!r} {obs.get('raised')!r}", None))
             continue
@@ -205,7 +209,11 @@ def corpus():
                                          "perfile": {"3": 20000}, "inputs": {"100": 2, "101": 9, "102": 4}, "version": 0},
            "steps": [["build"], ["build"], ["write", 100, 4], ["build"], ["write", 1004, 8], ["build"], ["delete", 1004], ["build"],
                      ["write", 100, 1], ["build"], ["write", 1000, 3], ["build"], ["write", 101, 10], ["build"], ["write", 100, 0], ["build"]]}
-    return [f11, f11b, f13, mix]
+    # outside the model's feature scope (oracle only): provisional dependencies are resolved before the persist hook looks at them
+    pers = {"tag": "corpus-persist", "nomodel": True,
+            "spec": {"pats": pats, "tasks": [_t(1, pdeps=[f0], prods=[200], persist=True)], "perfile": {}, "inputs": {}, "version": 0},
+            "steps": [["write", 1000, 5], ["write", 1001, 6], ["build"], ["build"]]}
+    return [f11, f11b, f13, mix, pers]
 
 
 def histories(ctx):
@@ -234,11 +242,18 @@ def run_histories(ctx, hs, nseeds=None):
     nseeds = nseeds or (8 if not ctx.thorough else 12)
     hashseeds = [rng.randrange(1, 4_000_000_000) for _ in range(nseeds)]
     ctx.extra["hash_seeds"] = hashseeds
-    pool = builder.Pool(hashseeds)
+    pool = pa.TimedPool(hashseeds)
     try:
+        timeouts = []
+
         def one(args):
             i, h = args
-            return pa.run_history(pool.pick(i), h)
+            if len(timeouts) >= 3:      # builds no longer terminate: three witnesses are enough, do not wait for the rest
+                return []
+            recs = pa.run_history(pool.pick(i), h)
+            if any(r.get("obs", {}).get("timeout") for r in recs):
+                timeouts.append(i)
+            return recs
         with ThreadPoolExecutor(max_workers=nseeds) as ex:
             return list(ex.map(one, enumerate(hs)))
     finally:
@@ -268,7 +283,7 @@ def evaluate(ctx, hs, all_records):
         for kind, msg, finding in oracle(h, recs):
             ctx.dist["oracle:" + kind + (":" + finding if finding else "")] += 1
             ctx.violation(f"{kind}: {msg}", {"history": h, "layer": "prov-e2e"}, finding=finding)
-        if drv is not None:
+        if drv is not None and not h.get("nomodel"):
             dis = pa.replay_in_model(drv, h, recs)
             ctx.traces_validated += 1
             for (i, what, iv, mv) in dis[:1]:
